@@ -44,7 +44,11 @@ func c09Table(r *R, f *core.FSM) {
 		for st := range want {
 			to, ok := f.Next(ev, st)
 			key := ev + "@" + st
-			if !ok || to == st {
+			if !ok {
+				c.Triv("C09.1", "stays:"+key, "", "rejected (no row)")
+				continue
+			}
+			if to == st {
 				c.OK("C09.1", "stays:"+key, "", "does not leave the cleanup status")
 				continue
 			}
